@@ -278,6 +278,10 @@ def run_blocks(ctx):
             'MatrixOperator': A, 'A-B': A - odl.IdentityOperator(sp), '-A': -A, 'A**2': A ** 2, 'A+v': A + v,
             'proj-box': P.proximal_box_constraint(sp, -0.2, 0.6)(1.0) if sp.is_real else odl.IdentityOperator(sp),
             'proj-l2-ball': S.IndicatorLpUnitBall(sp, 2).proximal(1.0) if sp.is_real else odl.IdentityOperator(sp),
+            # vector * functional (domain = range = space of the vector), and the hyperplane projection built from it
+            'v*functional': v * (S.L2NormSquared(sp) if sp.is_real else odl.InnerProductOperator(v)),
+            'v*(<a,.>-b)': v * (odl.InnerProductOperator(v) - 0.3),
+            'I-v*(<a,.>-b)': odl.IdentityOperator(sp) - (v / v.inner(v).real) * (odl.InnerProductOperator(v) - 0.3),
             'OperatorSum(user-tmp)': odl.OperatorSum(A, odl.ScalingOperator(sp, 2.0), sp.element(), sp.element()),
             'OperatorComp(user-tmp)': odl.OperatorComp(A, odl.MultiplyOperator(v), sp.element()),
             'RealPart*ComplexEmbedding' if sp.is_real else 'ComplexEmbedding*RealPart': (odl.RealPart(sp.complex_space) * odl.ComplexEmbedding(sp)) if sp.is_real else odl.ComplexEmbedding(sp.real_space) * odl.RealPart(sp),
